@@ -116,7 +116,7 @@ func genProgram(r *vf.Run, idx, per int) *behProg {
 	b.WriteString(prelude)
 	for ti, t := range templates {
 		for k := 0; k < per; k++ {
-			g := &gen{rng: r.Rand("behaviour/"+t.check, idx*1000+k)}
+			g := &gen{rng: r.Rand("behaviour/"+t.check, idx*1000+k), inst: idx*per + k}
 			name := fmt.Sprintf("F_%s_%d", t.check, k)
 			body := t.gen(g)
 			src := "func " + name + "(in In) (out []interface{}) {\n" + funcHead + indent(body) + "\treturn\n}\n"
@@ -254,11 +254,11 @@ func runBehaviour(r *vf.Run, l *linter, acc *itemResult) (stats map[string]*behS
 		templateOf[t.check] = t
 		stats[t.check] = &behStat{NoCompare: t.noCompare, Differences: map[string]int{}}
 	}
-	perTemplate := r.Pick(6, 60)
+	perTemplate := r.Pick(16, 96)
 	if v, err := strconv.Atoi(os.Getenv("C16_PER")); err == nil && v > 0 {
 		perTemplate = v // development only
 	}
-	perProg := r.Pick(2, 6)
+	perProg := r.Pick(4, 8)
 	nProg := (perTemplate + perProg - 1) / perProg
 	root := filepath.Join(r.Scratch(), "beh")
 	origDir, fixedDir, binDir := filepath.Join(root, "orig"), filepath.Join(root, "fixed"), filepath.Join(root, "bin")
@@ -280,6 +280,9 @@ func runBehaviour(r *vf.Run, l *linter, acc *itemResult) (stats map[string]*behS
 			os.MkdirAll(filepath.Join(origDir, p.dir), 0o755)
 			os.WriteFile(filepath.Join(origDir, p.dir, "prog.go"), []byte(p.prog), 0o644)
 			os.WriteFile(filepath.Join(origDir, p.dir, "main.go"), []byte(p.main), 0o644)
+		}
+		if d := os.Getenv("C16_DUMP"); d != "" { // development only
+			exec.Command("cp", "-r", origDir, d).Run()
 		}
 		// lint through the real runner
 		cfg := &packages.Config{Dir: origDir, Env: append(vf.GoEnv(), fmt.Sprintf("GOMAXPROCS=%d", W))}
